@@ -50,6 +50,10 @@ CORPUS = [
     ({"main": 'fn main() { let s = "{' + ", ".join('\\"%s\\": %d' % (k, n) for n, k in enumerate(
         ["\\\\u00e9", "e\\\\u0301", "a", "A", "\\\\u00c5", "A\\\\u030a", "\\\\u212b", "k1", "k2", "k3", "k1", "\\\\u1e69", "s\\\\u0323\\\\u0307", "s\\\\u0307\\\\u0323"])) +
         '}"; let o = s.parse_json() as { ? }; println(o.keys().len(), o.to_json()); println(o); for k in o.keys() { println(k.len(), o.get_type(k), o.get(k)); } }'}, "json-nfc-keys"),
+    # far more than a hundred warnings from one scope and from several modules (unused locals, parameters, imports, functions)
+    ({"main": "fn main() { " + " ".join(f"let u{i} = {i};" for i in range(170)) + " println(42); }\n" + "\n".join(f"fn q{i}(p{i}: int) {{ }}" for i in range(40))}, "many-warnings"),
+    ({"main": "import { " + ", ".join(f"f{i}" for i in range(60)) + " } from lib;\nfn main() { " + " ".join(f"let w{i} = {i};" for i in range(70)) + " println(f0(1) + f1(2)); }",
+      "lib": "\n".join(f"pub fn f{i}(n: int) -> int {{ let z{i} = n; n + {i} }}" for i in range(60)) + "\nfn main() { }"}, "many-warnings-modules"),
     # a refused cast of an object that lacks SEVERAL expected fields / has several surplus fields: which one the message names
     ({"main": 'type Cfg = { host: str, port: int, retries: int, tls: bool, name: str, zone: ?int };\nfn chk(s: str) { try { let c = s.parse_json() as Cfg; println(c.host); } catch e { println(e.message); } '
               'try { let c: Cfg = s.parse_json(); println(c.port); } catch e { println(e.message); } }\n'
